@@ -323,6 +323,14 @@ Definition join_kind (ks : list kind) : kind :=
   if forallb (kind_eqb KI) ks then KI else if forallb (kind_eqb KB) ks then KB
   else if forallb (fun k => kind_eqb k KI || kind_eqb k KF || kind_eqb k KB) ks then KF else KO.
 
+(* inputs are matched by dimension name: transpose every array to the dimension order of the first *)
+Definition same_dim_order (arrays : list darr) : res (list darr) :=
+  match arrays with
+  | [] => Ok []
+  | a0 :: _ => mapM (fun a => if list_eqb String.eqb (dims a) (dims a0) then Ok a
+                              else transpose (map ByName (dims a0)) a) arrays
+  end.
+
 Definition stack (arrays : list darr) (axis_name : option string) (keyk : kind) (keys : list label)
            (do_align : bool) (sort : bool) : res darr :=
   let ds := get_dims arrays [] in
@@ -332,9 +340,14 @@ Definition stack (arrays : list darr) (axis_name : option string) (keyk : kind) 
               end in
   if mem_str name ds then Err ValueError else
   let! arrs := if do_align then align arrays Outer None sort true else Ok arrays in
+  let! arrs := same_dim_order arrs in
   match arrs with
   | [] => Err OtherError
   | a0 :: _ =>
+      (* secondary axes must carry the same labels in the same order *)
+      if negb (forallb (fun a => forallb (fun ax => match axis_of a0 (aname ax) with
+                                                     | Some ax0 => labels_eqb (alab ax) (alab ax0)
+                                                     | None => false end) (axes a)) arrs) then Err ValueError else
       (* np.array([a.values ...]) needs identical shapes *)
       if negb (forallb (fun a => list_eqb Nat.eqb (sh (vals a)) (sh (vals a0))) arrs) then Err ValueError else
       let! axs := pick_axes arrs in
@@ -359,6 +372,7 @@ Definition concatenate (arrays : list darr) (r : axref) (do_align sort : bool) :
                        if String.eqb (aname ax) d then Ok l else align l Outer (Some (aname ax)) sort true)
                     (axes a0) (Ok arrays)
         else Ok arrays in
+      let! arrs := same_dim_order arrs in
       match arrs with
       | [] => Err ValueError
       | b0 :: _ =>
